@@ -2,18 +2,26 @@
    Model: Model/Coalesce.v (poll-granular model of CoalesceService::call, CoalesceFuture::poll and
    its Drop over the in-flight map and one single-message broadcast channel per leader).
    Quantified over every list of events: Call i k (service.call for caller i with key k: the role
-   is decided here, and a leader's inner call starts here), Poll i, Drop i (cancellation at any
-   point), Complete i o (caller i's own inner call finishes with o in {ok, err, panic}; never =
-   no Complete), for any number of callers and keys, in any order.  `run evs` is the state after
-   evs; `inflight s` lists the callers whose inner call exists (made, not yet finished or dropped).
+   is decided here, and a leader's inner call starts here), CallPanic i k (the same call() with an
+   inner service whose call() panics if this request reaches it), Poll i, Drop i (cancellation at
+   any point), Complete i o (caller i's own inner call finishes with o in {ok, err, panic}; never =
+   no Complete), Arm i (the next Clone of a value produced by caller i's inner call panics), for any
+   number of callers and keys, in any order; and over both ways a pending waiter may arrange to be
+   polled again (b = true: it wakes itself at once, which is what the code does and what run_script
+   executes; b = false: it is woken when its leader's channel receives the result or closes).
+   `run_b b evs` is the state after evs (`run = run_b true`); `inflight s` lists the callers whose
+   inner call exists (made, not yet finished or dropped).  run_script folds the same `step`:
+   C11_trace_is_run.  (A `Waiting l` caller never faces `chan s l = NoChan`: that case of the
+   model's poll is dead code by the invariant, so "Pending iff the leader is Leading" below is not
+   true by accident.)
    Only statements, `exact`, and Print Assumptions. *)
 From TR Require Import Lib.Base Model.Coalesce Proof.Coalesce.
 
 (* In every reachable state the inner calls in flight are exactly those of the Leading callers,
    each once, and no two Leading callers have the same key: at most one in-flight inner call per key. *)
 Theorem C11_one_per_key :
-  forall (evs : list ev),
-    let s := run evs in
+  forall (b : bool) (evs : list ev),
+    let s := run_b b evs in
     NoDup (inflight s) /\
     (forall i, In i (inflight s) <-> exists k, cs s i = Leading k) /\
     (forall i j k, cs s i = Leading k -> cs s j = Leading k -> i = j) /\
@@ -21,11 +29,18 @@ Theorem C11_one_per_key :
 Proof. exact one_per_key. Qed.
 Print Assumptions C11_one_per_key.
 
+(* The in-flight map names, under key k, exactly the caller that currently leads k. *)
+Theorem C11_map_entry_is_leader :
+  forall (b : bool) (evs : list ev) (k l : nat),
+    lookup k (reqs (run_b b evs)) = Some l <-> cs (run_b b evs) l = Leading k.
+Proof. exact map_entry_is_leader. Qed.
+Print Assumptions C11_map_entry_is_leader.
+
 (* A request arriving while a leader's call for its key is in flight becomes a waiter on that
    leader and makes no inner call - not at call() and never later. *)
 Theorem C11_waiter_makes_no_call :
-  forall (evs : list ev) (l k i : nat),
-    let s := run evs in
+  forall (b : bool) (evs : list ev) (l k i : nat),
+    let s := run_b b evs in
     cs s l = Leading k -> cs s i = Idle ->
     let s2 := step_st s (Call i k) in
     cs s2 i = Waiting l /\ inflight s2 = inflight s /\
@@ -35,27 +50,47 @@ Print Assumptions C11_waiter_makes_no_call.
 
 (* If that leader finishes with r (ok or error), the leader gets r and every waiter on it gets a
    clone of r - carrying the leader's value - at its next poll, whatever happens in between
-   (other callers, new leaders for the same key, ...) short of polling or dropping the waiter. *)
+   (other callers, new leaders for the same key, ...) short of polling or dropping the waiter -
+   provided the clones can be made: no Clone panic is armed for the leader's value (C11_leader_gone
+   and C11_clone_panic_waiter say what happens otherwise). *)
 Theorem C11_waiters_share :
-  forall (evs : list ev) (l k i : nat) (o : outcome) (evs2 : list ev),
-    let s := run evs in
+  forall (b : bool) (evs : list ev) (l k i : nat) (o : outcome) (evs2 : list ev),
+    let s := run_b b evs in
     cs s l = Leading k -> cs s i = Waiting l -> gate s l = Some o -> o <> OPanic ->
-    (forall e, In e evs2 -> e <> Poll i /\ e <> Drop i) ->
+    bomb s l = false ->
+    (forall e, In e evs2 -> e <> Poll i /\ e <> Drop i /\ e <> Arm l) ->
     snd (step s (Poll l)) = {| r := code o; val := Z.of_nat l |} /\
     snd (step (fold_left step_st evs2 (step_st s (Poll l))) (Poll i)) =
       {| r := code o; val := Z.of_nat l |}.
 Proof. exact waiters_share. Qed.
 Print Assumptions C11_waiters_share.
 
-(* Leader dropped (at any point, even with its inner call already completed) or panicked: the key
-   is free immediately - the next call() for it leads a fresh inner call - and every waiter on that
-   leader resolves LeaderCancelled (r = 3) at its next poll. *)
+(* The same from any later state: a waiter in front of a channel holding its leader's result gets
+   that result at its next poll (a waiter that joined after the inner call had completed but
+   before the leader's completing poll is such a waiter). *)
+Theorem C11_sent_delivers :
+  forall (b : bool) (evs : list ev) (i l : nat) (o : outcome) (evs2 : list ev),
+    let s := run_b b evs in
+    cs s i = Waiting l -> chan s l = Sent o -> bomb s l = false ->
+    (forall e, In e evs2 -> e <> Poll i /\ e <> Drop i /\ e <> Arm l) ->
+    snd (step (fold_left step_st evs2 s) (Poll i)) = {| r := code o; val := Z.of_nat l |}.
+Proof. exact sent_delivers. Qed.
+Print Assumptions C11_sent_delivers.
+
+(* Leader dropped (at any point, even with its inner call already completed), or panicked - its
+   inner future panics while being polled, or its inner future returns and cloning the result for
+   the waiters panics: the leader's poll reports the panic, the key is free immediately - the next
+   call() for it leads a fresh inner call - and every waiter on that leader resolves
+   LeaderCancelled (r = 3) at its next poll. *)
 Theorem C11_leader_gone :
-  forall (evs : list ev) (l k : nat) (e : ev),
-    let s := run evs in
-    cs s l = Leading k -> (e = Drop l \/ (e = Poll l /\ gate s l = Some OPanic)) ->
+  forall (b : bool) (evs : list ev) (l k : nat) (e : ev),
+    let s := run_b b evs in
+    cs s l = Leading k ->
+    (e = Drop l \/ (e = Poll l /\ gate s l = Some OPanic) \/
+     (e = Poll l /\ gate s l <> None /\ bomb s l = true)) ->
     let s1 := step_st s e in
     lookup k (reqs s1) = None /\ ~ In l (inflight s1) /\
+    (e = Poll l -> r (snd (step s e)) = 5) /\
     (forall j, cs s1 j = Idle ->
        cs (step_st s1 (Call j k)) j = Leading k /\
        inflight (step_st s1 (Call j k)) = inflight s1 ++ [j]) /\
@@ -64,42 +99,124 @@ Theorem C11_leader_gone :
 Proof. exact leader_gone. Qed.
 Print Assumptions C11_leader_gone.
 
+(* inner.call() panics synchronously inside call(): nothing is left behind.  The in-flight set and
+   the map are unchanged.  If some caller leads the key, the request never reaches the inner
+   service: it is an ordinary waiter.  Otherwise call() unwinds (r = 5), no future exists, nobody
+   else is touched, the key is still free and the next call() for it leads a fresh inner call. *)
+Theorem C11_sync_panic_frees_key :
+  forall (b : bool) (evs : list ev) (i k : nat),
+    let s := run_b b evs in
+    cs s i = Idle ->
+    let s1 := step_st s (CallPanic i k) in
+    inflight s1 = inflight s /\ reqs s1 = reqs s /\
+    (forall l, cs s l = Leading k ->
+       cs s1 i = Waiting l /\ r (snd (step s (CallPanic i k))) = -1 /\ chan s1 = chan s) /\
+    ((forall l, cs s l <> Leading k) ->
+       r (snd (step s (CallPanic i k))) = 5 /\ cs s1 i = Done /\ chan s1 i = Closed /\
+       (forall j, j <> i -> cs s1 j = cs s j /\ chan s1 j = chan s j) /\
+       (forall l, cs s1 l <> Leading k) /\
+       forall j, cs s1 j = Idle ->
+         cs (step_st s1 (Call j k)) j = Leading k /\
+         inflight (step_st s1 (Call j k)) = inflight s1 ++ [j]).
+Proof. exact sync_panic_frees_key. Qed.
+Print Assumptions C11_sync_panic_frees_key.
+
+(* The Clone made for one waiter panics (the leader has completed, its result is in the channel):
+   that waiter's poll panics and nothing else changes - the other waiters still get the result
+   (C11_sent_delivers applies to them: the armed panic is used up). *)
+Theorem C11_clone_panic_waiter :
+  forall (b : bool) (evs : list ev) (i l : nat) (o : outcome),
+    let s := run_b b evs in
+    cs s i = Waiting l -> chan s l = Sent o -> bomb s l = true ->
+    let s1 := step_st s (Poll i) in
+    snd (step s (Poll i)) = {| r := 5; val := -1 |} /\ cs s1 i = Done /\ bomb s1 l = false /\
+    chan s1 = chan s /\ reqs s1 = reqs s /\ inflight s1 = inflight s /\
+    (forall j, j <> i -> cs s1 j = cs s j).
+Proof. exact clone_panic_waiter. Qed.
+Print Assumptions C11_clone_panic_waiter.
+
 (* Results travel only along the leader's own channel: a waiter has the key of its leader; a value
    it receives is the one its leader's channel holds and names that leader; and the channel created
    by caller l0 is changed by no event other than l0's own call / poll / drop. *)
 Theorem C11_no_cross_key :
-  forall (evs : list ev) (i l : nat),
-    let s := run evs in
+  forall (b : bool) (evs : list ev) (i l : nat),
+    let s := run_b b evs in
     cs s i = Waiting l ->
     ckey s i = ckey s l /\ (exists k, ckey s i = Some k) /\
     (r (snd (step s (Poll i))) = 1 \/ r (snd (step s (Poll i))) = 2 ->
        val (snd (step s (Poll i))) = Z.of_nat l /\
        exists o, chan s l = Sent o /\ r (snd (step s (Poll i))) = code o) /\
     (forall e l0, e <> Poll l0 -> e <> Drop l0 -> (forall k, e <> Call l0 k) ->
-       chan (step_st s e) l0 = chan s l0).
+       (forall k, e <> CallPanic l0 k) -> chan (step_st s e) l0 = chan s l0).
 Proof. exact no_cross_key. Qed.
 Print Assumptions C11_no_cross_key.
 
-(* No request waits forever: a waiter's poll is Pending exactly while its leader is still leading
-   (and then the waiter has arranged to be polled again: it wakes itself); otherwise it resolves. *)
+(* No request waits forever, part 1 (promptness): a waiter's poll is Pending exactly while its
+   leader is still leading; then it stays a waiter whose waker is known (and, when waiters spin,
+   it has woken itself); otherwise that very poll resolves it. *)
 Theorem C11_no_wait_forever :
-  forall (evs : list ev) (i l : nat),
-    let s := run evs in
+  forall (b : bool) (evs : list ev) (i l : nat),
+    let s := run_b b evs in
     cs s i = Waiting l ->
     (r (snd (step s (Poll i))) = 0 <-> exists k, cs s l = Leading k) /\
     (r (snd (step s (Poll i))) = 0 ->
-       woken (step_st s (Poll i)) i = true /\ cs (step_st s (Poll i)) i = Waiting l) /\
+       cs (step_st s (Poll i)) i = Waiting l /\ polled (step_st s (Poll i)) i = true /\
+       (b = true -> woken (step_st s (Poll i)) i = true)) /\
     (r (snd (step s (Poll i))) <> 0 -> cs (step_st s (Poll i)) i = Done).
 Proof. exact no_wait_forever. Qed.
 Print Assumptions C11_no_wait_forever.
 
-(* Requests arriving after completion start a fresh call: once the leader has finished, no caller
-   leads the key, and the next call() for it leads and calls the inner service itself; more
-   generally this holds whenever no caller leads the key. *)
+(* No request waits forever, part 2 (no lost wake-up), in every reachable state and for both waiter
+   disciplines: a request that has returned Pending is woken - so its executor polls it again -
+   unless what it waits for has not happened yet: for a waiter, its leader is still leading
+   (possible only when waiters do not spin); for a leader, its inner call has not completed. *)
+Theorem C11_no_lost_wakeup :
+  forall (b : bool) (evs : list ev),
+    let s := run_b b evs in
+    (forall i, cs s i = Idle -> polled s i = false) /\
+    (forall i l, cs s i = Waiting l -> polled s i = true ->
+       woken s i = true \/ (b = false /\ exists k, cs s l = Leading k)) /\
+    (forall i k, cs s i = Leading k -> polled s i = true -> gate s i <> None -> woken s i = true).
+Proof. exact no_lost_wakeup. Qed.
+Print Assumptions C11_no_lost_wakeup.
+
+(* In particular: the event after which a waiter's leader no longer leads (it completed, was
+   dropped or panicked) leaves every pending waiter on it woken. *)
+Theorem C11_waiter_woken_when_settled :
+  forall (b : bool) (evs : list ev) (i l : nat) (e : ev),
+    let s := run_b b evs in
+    cs s i = Waiting l -> polled s i = true ->
+    (exists k, cs s l = Leading k) -> (forall k, cs (step_st s e) l <> Leading k) ->
+    woken (step_st s e) i = true /\ cs (step_st s e) i = Waiting l.
+Proof. exact waiter_woken_when_settled. Qed.
+Print Assumptions C11_waiter_woken_when_settled.
+
+(* Once no caller leads, one round of polls resolves every waiter (the bound on polls after the
+   last external event): result, LeaderCancelled, or a panic of the Clone made for it. *)
+Theorem C11_quiescent_one_round :
+  forall (b : bool) (evs : list ev) (i l : nat),
+    let s := run_b b evs in
+    (forall j k, cs s j <> Leading k) -> cs s i = Waiting l ->
+    (r (snd (step s (Poll i))) = 1 \/ r (snd (step s (Poll i))) = 2 \/
+     r (snd (step s (Poll i))) = 3 \/ r (snd (step s (Poll i))) = 5) /\
+    cs (step_st s (Poll i)) i = Done.
+Proof. exact quiescent_one_round. Qed.
+Print Assumptions C11_quiescent_one_round.
+
+(* Err(RecvError) (a lagging receiver) is never produced, from any state. *)
+Theorem C11_no_recv_error :
+  forall (s : st) (e : ev), r (snd (step s e)) <> 4.
+Proof. exact no_recv_error. Qed.
+Print Assumptions C11_no_recv_error.
+
+(* Requests arriving after completion start a fresh call: once the leader's inner call has
+   finished and the leader has been polled - whether that poll returns the result or panics - no
+   caller leads the key, and the next call() for it leads and calls the inner service itself;
+   more generally (C11_free_key_leads) this holds whenever no caller leads the key. *)
 Theorem C11_fresh_after_completion :
-  forall (evs : list ev) (l k : nat) (o : outcome),
-    let s := run evs in
-    cs s l = Leading k -> gate s l = Some o -> o <> OPanic ->
+  forall (b : bool) (evs : list ev) (l k : nat) (o : outcome),
+    let s := run_b b evs in
+    cs s l = Leading k -> gate s l = Some o ->
     let s1 := step_st s (Poll l) in
     lookup k (reqs s1) = None /\ ~ In l (inflight s1) /\ (forall l', cs s1 l' <> Leading k) /\
     (forall j, cs s1 j = Idle ->
@@ -109,10 +226,38 @@ Proof. exact fresh_after_completion. Qed.
 Print Assumptions C11_fresh_after_completion.
 
 Theorem C11_free_key_leads :
-  forall (evs : list ev) (k j : nat),
-    let s := run evs in
+  forall (b : bool) (evs : list ev) (k j : nat),
+    let s := run_b b evs in
     (forall l, cs s l <> Leading k) -> cs s j = Idle ->
     let s2 := step_st s (Call j k) in
     cs s2 j = Leading k /\ inflight s2 = inflight s ++ [j] /\ chan s2 j = Open.
 Proof. exact free_key_leads. Qed.
 Print Assumptions C11_free_key_leads.
+
+(* Cancelling a waiter, at any point, concerns nobody else: map, channels, in-flight set and every
+   other caller are unchanged, and the cancelled request never makes an inner call. *)
+Theorem C11_waiter_cancel_is_local :
+  forall (b : bool) (evs : list ev) (i l : nat),
+    let s := run_b b evs in
+    cs s i = Waiting l ->
+    let s1 := step_st s (Drop i) in
+    cs s1 i = Dropped /\ (forall j, j <> i -> cs s1 j = cs s j) /\
+    reqs s1 = reqs s /\ chan s1 = chan s /\ inflight s1 = inflight s /\ bomb s1 = bomb s /\
+    forall evs2, ~ In i (inflight (fold_left step_st evs2 s1)).
+Proof. exact waiter_cancel_is_local. Qed.
+Print Assumptions C11_waiter_cancel_is_local.
+
+(* What the correspondence check compares is the run of `step`: the k-th row of the trace
+   run_script prints for a script is the observation of the k-th event taken from `run` of the
+   events before it, with the wake / in-flight / armed masks of the state after it. *)
+Theorem C11_trace_is_run :
+  forall (sc : list Z) (k : nat) (e : ev),
+    let n := callers_of (zn sc 0) in
+    let evs := evs_of n (chunk3 (skipn 1 sc)) in
+    nth_error evs k = Some e ->
+    let s := run (firstn k evs) in
+    firstn 5 (skipn (5 * k)%nat (run_script sc)) =
+      [r (snd (step s e)); val (snd (step s e)); wake_mask (step_st s e) n;
+       flight_mask (step_st s e); bomb_mask (step_st s e) n].
+Proof. exact trace_is_run. Qed.
+Print Assumptions C11_trace_is_run.
